@@ -46,8 +46,31 @@ def _one(sc):
     if not is_subseq(p, m):
         bad.append("the payload-carrying packets exported without -a are not a subsequence of those exported with -a "
                    f"({len(p)} vs {len(m)} packets): application data changed, reordered or lost under -a")
-    if outs["plain"]["c"] != c.truth("c") or outs["plain"]["s"] != c.truth("s"):
+    if not sc["conns"][0].get("alert_at") and (outs["plain"]["c"] != c.truth("c") or outs["plain"]["s"] != c.truth("s")):
         bad.append("export without -a differs from the data sent")
+    # "only adds handshake, alert and change-cipher-spec material": what -a exports per direction must be exactly the
+    # application data of the plain run interleaved, in record order, with that material (raw records; the decrypted
+    # Finished in front of its raw record) -- nothing else, in particular no further application data
+    for d in "cs":
+        plain, pos, exp = outs["plain"][d], 0, b""
+        for r in c.records:
+            if r.d != d:
+                continue
+            if r.kind == "APP":
+                if r.plain and plain[pos:pos + len(r.plain)] == r.plain:
+                    exp += r.plain
+                    pos += len(r.plain)
+            elif r.kind in ("CH", "SH", "HS", "CCS") or (r.kind == "ALERT" and c.ver != R.TLS13):
+                exp += r.raw            # (TLS 1.3 alerts travel as application-data-typed records and are not metadata records)
+            elif r.kind == "FIN":
+                exp += r.prot["inner"] + r.raw
+        got = outs["meta"][d]
+        if pos != len(plain):
+            continue            # the plain export is not a sequence of whole records of this connection: judged by C01
+        if got != exp:
+            i = next((i for i in range(min(len(got), len(exp))) if got[i] != exp[i]), min(len(got), len(exp)))
+            bad.append(f"direction {d}: with -a {len(got)} bytes are exported, the application data of the plain run plus handshake/alert/CCS material "
+                       f"is {len(exp)} bytes (first difference at byte {i}): -a changed which application data is exported or added something else")
     # ClientHello / ServerHello verbatim as packets of their own (a record carried by k packets may come in <= k parts)
     for r in c.records:
         if r.kind in ("CH", "SH") and outs["meta"].get("segs") is not None:
@@ -71,7 +94,7 @@ def _one(sc):
 def run(chk):
     quick = chk.tier == "quick"
     rng = random.Random(chk.seed)
-    r = tlc.run("TlsSession", dict(c01.BASE, MaxApp="3" if quick else "4"), invariants=["MetaOnlyAdds", "HellosExported", "ExportedIsPrefix"],
+    r = tlc.run("TlsSession", dict(c01.BASE, MaxApp="3" if quick else "4", Alerts="TRUE"), invariants=["MetaOnlyAdds", "HellosExported", "ExportedIsPrefix"],
                 view="View", timeout=1200)
     chk.tlc("TlsSession MetaOnlyAdds", r)
     r = tlc.run("TlsSession", dict(c01.BASE, MaxApp="4", EmitOn="TRUE"), invariants=["Emit"], simulate=(60 if quick else 1500, 30),
@@ -84,6 +107,8 @@ def run(chk):
         cd = c01.conn_desc(b, rng)
         if rng.random() < 0.3:
             cd["alert_end"] = rng.choice(["warning", "fatal"])
+        if rng.random() < 0.3 and len(cd["app"]) >= 2:
+            cd["alert_at"] = {str(rng.randrange(1, len(cd["app"]))): [rng.choice(["c", "s"]), rng.choice([1, 2])]}
         jobs.append(dict(conns=[cd], opts=rng.choice([[], [], ["-m"]])))
     results = pool_map(_one, jobs)
     for res in results:
